@@ -718,6 +718,50 @@ fn hub_main(cfg_path: String, sock_path: String, workers: Vec<HubWorker>, ready:
     exit
 }
 
+
+/// The real main process (CommandHub, no workers): `LoadState(file_in)` then `SaveState(file_out)`, then a
+/// hard stop. Used by C05 to send generated state files through the loader the operator uses.
+/// Returns (status and message of LoadState, status and message of SaveState, bytes of the file saved).
+pub fn load_then_save(state_in: &[u8]) -> Result<((String, String), (String, String), Vec<u8>), String> {
+    std::fs::create_dir_all("/verif/scratch").map_err(|e| e.to_string())?;
+    let dir = tempfile::Builder::new().prefix("c05-").tempdir_in("/verif/scratch").map_err(|e| e.to_string())?;
+    let sock_path = dir.path().join("s.sock").to_string_lossy().to_string();
+    let cfg_path = dir.path().join("config.toml").to_string_lossy().to_string();
+    let file_in = dir.path().join("in.json").to_string_lossy().to_string();
+    let file_out = dir.path().join("out.json").to_string_lossy().to_string();
+    std::fs::write(&file_in, state_in).map_err(|e| e.to_string())?;
+    std::fs::write(&cfg_path, format!("command_socket = \"{sock_path}\"\nworker_count = 0\nworker_automatic_restart = false\nworker_timeout = {WORKER_TIMEOUT_S}\nlog_level = \"error\"\nlog_target = \"stdout\"\n")).map_err(|e| e.to_string())?;
+    let hub_done = Arc::new(AtomicBool::new(false));
+    let (ready_tx, ready_rx) = mpsc::channel();
+    let hub_handle = {
+        let (cfg_path, sock_path, hub_done) = (cfg_path.clone(), sock_path.clone(), hub_done.clone());
+        std::thread::Builder::new().name("c05-hub".into()).stack_size(8 << 20).spawn(move || hub_main(cfg_path, sock_path, vec![], ready_tx, hub_done)).map_err(|e| e.to_string())?
+    };
+    match ready_rx.recv_timeout(Duration::from_secs(10)) {
+        Ok(Ok(())) => {}
+        Ok(Err(e)) => return Err(format!("hub setup failed: {e}")),
+        Err(_) => return Err("hub setup did not finish".into()),
+    }
+    let verdict = |o: &ReqOutcome| -> (String, String) {
+        match o.finals.first() {
+            Some((r, _)) => (status_of(r).to_string(), r.message.clone()),
+            None => ("none".to_string(), o.broken.clone().unwrap_or_default()),
+        }
+    };
+    let load = one_shot(&sock_path, &Request { request_type: Some(RequestType::LoadState(file_in.clone())) }, &hub_done);
+    let save = one_shot(&sock_path, &Request { request_type: Some(RequestType::SaveState(file_out.clone())) }, &hub_done);
+    let _ = one_shot(&sock_path, &Request { request_type: Some(RequestType::HardStop(HardStop {})) }, &hub_done);
+    let t0 = Instant::now();
+    while !hub_handle.is_finished() && t0.elapsed() < Duration::from_secs(5) {
+        std::thread::sleep(Duration::from_millis(5));
+    }
+    if let HubExit::Panicked { loc, msg } = if hub_handle.is_finished() { hub_handle.join().unwrap_or(HubExit::Returned) } else { HubExit::Returned } {
+        return Err(format!("the main process panicked at {loc}: {msg}"));
+    }
+    let saved = std::fs::read(&file_out).unwrap_or_default();
+    Ok((verdict(&load), verdict(&save), saved))
+}
+
 // ---------------------------------------------------------------------------
 // the scenario
 
